@@ -38,8 +38,27 @@ def main():
             return mod.replay(a.replay)
         return mod.run(a.tier)
     except Exception:
+        # The harness itself tripped over what the implementation returned (a shape it did not expect, a missing attribute …).
+        # On an unchanged tree that is a broken check (and shows up as such); after a change to PyAbel it means a correspondence
+        # can no longer be run: report it the way a broken correspondence is reported — a violation without a failing input,
+        # the traceback as the replay.
+        tb = traceback.format_exc()
         traceback.print_exc()
-        return 2
+        sys.stdout = real_stdout
+        if a.replay:
+            return 2
+        try:
+            import json
+            from harness.common import REPLAYS, VERIF, seed
+            d = REPLAYS / a.prop
+            d.mkdir(parents=True, exist_ok=True)
+            path = d / f"seed{seed()}_crash.json"
+            path.write_text(json.dumps(dict(property=a.prop, kind="no-failing-input-found",
+                                            no_longer_checks=[dict(kind="harness", why="the check could not be completed", traceback=tb[-4000:])]), indent=1))
+            print(f"VIOLATION property={a.prop} replay={path.relative_to(VERIF)} no-failing-input-found", file=real_stdout)
+            return 1
+        except Exception:
+            return 2
     finally:
         sys.stdout = real_stdout
 
